@@ -413,11 +413,11 @@ def jobs_for(tier: str, seed: int) -> List[dict]:
             # every machine meets a pythonic and a JSON template; the rest at random
             pick = [rng.choice([c for c in combos if c[0].startswith("pythonic")]), rng.choice([c for c in combos if not c[0].startswith("pythonic")])]
         elif sp.family in ("stately",):
-            pick = rng.sample(combos, 4)
+            pick = rng.sample(combos, 2)
         elif sp.family == "hostile":
-            pick = combos
-        else:
             pick = rng.sample(combos, 10)
+        else:
+            pick = rng.sample(combos, 6)
         for (t, am, fc) in pick:
             n += 1
             jobs.append({"n": n, "spec": sp, "template": t, "am": am, "fc": fc})
